@@ -39,7 +39,11 @@ INST = {
         ("crdt", {"n": ("crdt",), "a": ("local",), "o": ("outchan",)}),
         ("crdt2pc", {"n": ("crdt",), "a": ("twopc",), "o": ("tcpout", "net", 2)}),
     ],
-    "G5": [("rlx", {"a": ("local",), "i": ("rlxin", "net", 1), "x": ("rlxout", "net", 2)})],
+    "G5": [
+        ("rlx", {"a": ("local",), "i": ("rlxin", "net", 1), "x": ("rlxout", "net", 2)}),
+        ("sout", {"a": ("local",), "i": ("inchan",), "x": ("singleout",)}),
+        ("soutfull", {"a": ("incmap", "m", 1), "i": ("inchan",), "x": ("singleout0",)}),
+    ],
     "G6": [
         ("plocal", {"p": ("pers-local",), "a": ("local",), "i": ("inchan",)}),
         ("pshared", {"p": ("pers-shared",), "a": ("incmap", "m", 1), "i": ("tcpin", "net", 1)}),
@@ -407,7 +411,7 @@ def run(chk):
         chk.drift.append({"spec": "CritSecProto.tla", "case": r["seg"][0].get("id"), "event": r["line_in_seg"],
                           "text": r["text"], "calls": r["seg"][max(0, r["line_in_seg"] - 1)].get("calls")})
     if drifted:   # the code left the modelled mechanism: judge everything again at property level only
-        obs = V.fold_traces(work, "CritSecObs", "CritSecObs.cfg", segs, timeout=2400, chunks=chunks, max_rounds=8,
+        obs = V.fold_traces(work, "CritSecObs", "CritSecObs.cfg", segs, timeout=2400, chunks=chunks, max_rounds=4,
                             jvm=["-XX:ParallelGCThreads=2"])
         chk.states += obs["states"]; chk.transitions += obs["transitions"]
     chk.traces += obs["accepted"]
@@ -439,6 +443,10 @@ def run(chk):
                  (", operation %d" % opno) if opno else "", json.dumps(ev)[:400]))
         key = "C01:%s:cfg=%s/%s:res=%s:impl=%s" % (inv, seg[0].get("cfg"), seg[0].get("inst"), rname or "-",
                                                      impl.get(rname, "-"))
+        if inv == "NoPanic":
+            msg = next((ln.get("msg", "") for ln in seg if ln.get("e") == "panic"), "")
+            key = "C01:NoPanic:cfg=%s/%s:panic=%s" % (seg[0].get("cfg"), seg[0].get("inst"),
+                                                        re.sub(r"[^A-Za-z0-9' ]+", " ", msg)[:60].strip())
         chk.violation(key, what, {"case": byid.get(cid), "recorded": seg[: r["line_in_seg"] + 1], "tlc": r["text"]})
 
     timing["fold"] = round(time.time() - t0, 1)
